@@ -81,4 +81,26 @@ def cases(r, tier):
         out.append(("long-body", long_body(n)))
     for n in ([100, 190, 210] if tier == "quick" else [100, 190, 198, 199, 200, 210, 400]):
         out.append(("many-globals", many_globals(n)))
+    # minus signs: a Lua `--` starts a comment, so every way of putting a minus in front of something that may itself
+    # print with a leading minus (negative literals after any folding, nested negations, subtraction of a negation)
+    atoms = ["1", "0", "5", "2.5", "x"]
+
+    def minus_exprs(d):
+        if d == 0:
+            return atoms
+        sub = minus_exprs(d - 1)
+        pick = sub if len(sub) <= 12 else [sub[i] for i in sorted(r.sample(range(len(sub)), 12))]
+        res = list(atoms)
+        for a in pick:
+            res += ["-%s" % a, "-(%s)" % a, "- -%s" % a, "-(-%s)" % a]
+            for b in pick[:6]:
+                res += ["%s - %s" % (a, b), "(%s - %s)" % (a, b), "%s - -%s" % (a, b), "-(%s - %s)" % (a, b), "-(%s * (%s - %s))" % (a, b, a),
+                        "%s + -(%s - %s)" % (a, b, a)]
+        return res
+    ms = minus_exprs(2)
+    if tier == "quick" and len(ms) > 400:
+        ms = [ms[i] for i in sorted(r.sample(range(len(ms)), 400))] + ["-(2 - 5)", "-(3 * (1 - 2))", "x + -(2 - 5)", "10 - - -3", "-(-1)", "- -1"]
+    for i in range(0, len(ms), 8):
+        body = "".join("  m%d := %s\n  print(m%d)\n" % (k, e, k) for k, e in enumerate(ms[i:i + 8]))
+        out.append(("minus", HEADER + "start :: fn do\n  x := 3\n" + body + "end\n"))
     return out
